@@ -2046,7 +2046,7 @@ pub fn run(ctx: &Ctx) {
     let steer = Arc::new(Steer::from_ctx(ctx));
     ctx.note(format!("C24 avoidance switches on: {:?}", avoid.on));
     let (n_wb, n_hist, steps, depth) = match ctx.tier {
-        Tier::Quick => (9000u64, 3000u64, 24usize, 3u32),
+        Tier::Quick => (27000u64, 9000u64, 24usize, 3u32),
         Tier::Thorough => (180_000, 60_000, 40, 4),
     };
     // development aid: scale the number of cases
